@@ -18,6 +18,7 @@ import Pycdlib.Model.Udf
 import Pycdlib.Model.Boot
 import Pycdlib.Model.Hybrid
 import Pycdlib.Model.Tools
+import Pycdlib.Model.Atomic
 namespace Pycdlib
 
 def parseCps (s : String) : Option (List Nat) :=
@@ -41,6 +42,23 @@ def upperOf (pairs : List (Char × List Char)) : Upper := fun c =>
   match pairs.find? (fun p => p.1 = c) with
   | some p => p.2
   | none => [c]
+
+def parseAtomicPath (s : String) : Option Atomic.Path :=
+  if s = "" then some [] else (s.splitOn "/").mapM fun n => (n.splitOn ".").mapM String.toNat?
+
+def parseAtomicNs (s : String) : Option (Option Atomic.Ns) :=
+  if s = "0" then some none
+  else if s = "-" then some (some [])
+  else do
+    let es ← (s.splitOn ",").mapM fun e =>
+      match e.toList with
+      | 'd' :: r => (parseAtomicPath (String.ofList r)).map fun p => (⟨p, true⟩ : Atomic.Entry)
+      | 'f' :: r => (parseAtomicPath (String.ofList r)).map fun p => (⟨p, false⟩ : Atomic.Entry)
+      | _ => none
+    pure (some es)
+
+def parseAtomicOpt (s : String) : Option (Option Atomic.Path) :=
+  if s = "-" then some none else (parseAtomicPath s).map some
 
 def dispatchPure (toks : List String) : Option String :=
   match toks with
@@ -151,6 +169,22 @@ def dispatchPure (toks : List String) : Option String :=
     pure (" ".intercalate (rs.map fun r => match r with
       | none => "-"
       | some t => hexs (t.map fun c => UInt8.ofNat c.toNat)))
+  | ["atomic", lvl, rr, xa, i, j, u, kind, pi, pj, pu] => do
+    let st : Atomic.St := { iso := ← parseAtomicNs i, joliet := ← parseAtomicNs j, udf := ← parseAtomicNs u }
+    let k ← (match kind with
+      | "addfile" => some (Atomic.Kind.add false)
+      | "adddir" => some (Atomic.Kind.add true)
+      | "rmdir" => some Atomic.Kind.rmdir
+      | _ => none)
+    let o : Atomic.Op := { kind := k, iso := ← parseAtomicOpt pi, joliet := ← parseAtomicOpt pj, udf := ← parseAtomicOpt pu }
+    let L := Atomic.libLegal (← lvl.toNat?) (rr = "1") (xa = "1")
+    let r := Atomic.stepChecked L st o
+    let old := Atomic.stepInterleaved L st o
+    let sz (s : Atomic.St) : String :=
+      s!"{(s.iso.map List.length).getD 0}/{(s.joliet.map List.length).getD 0}/{(s.udf.map List.length).getD 0}"
+    pure (match r.2 with
+      | none => s!"ok {sz r.1}"
+      | some c => s!"refused:{reprStr c} {sz r.1} interleaved-would-leave:{sz old.1}")
   | ["jolietpath", root, name] => do
     let r ← parseCps root; let n ← parseCps name
     let comps := Tools.jolietComponents ((r.map Char.ofNat).splitOn '/') (n.map Char.ofNat)
